@@ -59,7 +59,8 @@ def make_script(rng, beh):
         if needs and not pool:
             continue
         m = rng.sample(pool, rng.randint(1 if needs else 0, len(pool))) if pool else []
-        apps.append({"n": n, "action": name, "wells": sorted(m), "inline": inline_text(body, m)})
+        welpi = sorted({w for k in body if k["kw"] == "WELPI" for w in (m if k["well"] == "?" else [k["well"]])})
+        apps.append({"n": n, "action": name, "wells": sorted(m), "inline": inline_text(body, m), "welpi": welpi})
         n_prev = n
     if not apps:
         return None
